@@ -114,8 +114,15 @@ type Pool struct {
 	New func() any
 }
 
+// SoloGets counts pool requests made outside simulations (the reference executions run on one
+// goroutine; the harness reads and resets it between calls).
+var SoloGets int
+
 func (p *Pool) Get() any {
 	obj, fresh, simulated := simrt.PoolGet(unsafe.Pointer(p))
+	if !simulated {
+		SoloGets++
+	}
 	if !simulated || fresh {
 		if p.New != nil {
 			return p.New()
